@@ -7,6 +7,7 @@ import (
 	"io"
 	"strconv"
 	"strings"
+	"sync"
 
 	"github.com/samaritan-proxy/samaritan/verifrt/sched"
 	"github.com/samaritan-proxy/samaritan/verifrt/sim/resp"
@@ -113,6 +114,10 @@ type Cluster struct {
 	HoldCluster bool
 	Held        int
 	connSeq     int
+	// mu protects the cluster's state in free-running mode (the -race pass): node goroutines and the harness
+	// touch it concurrently there. Under the controlled scheduler threads never run at the same time and the
+	// lock is not taken (a thread parked at a scheduling point must not hold a real lock).
+	mu sync.Mutex
 }
 
 // New builds a cluster of nMasters masters with replicasPer replicas each; group g is owned by master g % nMasters.
@@ -130,6 +135,15 @@ func New(nMasters, replicasPer, groups int) *Cluster {
 		c.Owner[g] = c.Masters()[g%nMasters]
 	}
 	return c
+}
+
+// Locked runs f with the cluster's state locked in free-running mode (harness-side mutations and reads).
+func (c *Cluster) Locked(f func()) {
+	if sched.E == nil {
+		c.mu.Lock()
+		defer c.mu.Unlock()
+	}
+	f()
 }
 
 // Masters lists nodes that are masters.
@@ -227,10 +241,13 @@ func (n *Node) Up() {
 			}
 			vc := conn.(*vnet.VConn)
 			vc.Label = "node-" + n.ID
-			n.conns = append(n.conns, vc)
-			n.Accepted++
-			n.C.connSeq++
-			id := n.C.connSeq
+			var id int
+			n.C.Locked(func() {
+				n.conns = append(n.conns, vc)
+				n.Accepted++
+				n.C.connSeq++
+				id = n.C.connSeq
+			})
 			sched.GoServer(fmt.Sprintf("node-%s-conn%d", n.ID, id), func() { n.serve(vc, id) })
 		}
 	})
@@ -247,22 +264,24 @@ func (n *Node) Stop() {
 
 // ResetConns resets every established connection of the node.
 func (n *Node) ResetConns() {
-	for _, c := range n.conns {
+	var cs []*vnet.VConn
+	n.C.Locked(func() { cs, n.conns = n.conns, nil })
+	for _, c := range cs {
 		if !c.IsClosed() {
 			c.Reset()
 		}
 	}
-	n.conns = nil
 }
 
 // CloseConns closes (FIN) every established connection of the node.
 func (n *Node) CloseConns() {
-	for _, c := range n.conns {
+	var cs []*vnet.VConn
+	n.C.Locked(func() { cs, n.conns = n.conns, nil })
+	for _, c := range cs {
 		if !c.IsClosed() {
 			c.Close()
 		}
 	}
-	n.conns = nil
 }
 
 // ShareStore makes the node use m's keyspace (replicas see their master's data without lag).
@@ -302,7 +321,9 @@ func (n *Node) serve(conn *vnet.VConn, id int) {
 			sargs = append(sargs, string(a.Str))
 		}
 		wasAsking := asking
-		reply, redirect := n.exec(args, &asking, &readonly)
+		var reply resp.Value
+		var redirect bool
+		n.C.Locked(func() { reply, redirect = n.exec(args, &asking, &readonly) })
 		raw := resp.Encode(reply)
 		if n.BadReplies != nil && len(sargs) > 0 {
 			if b, ok := n.BadReplies[strings.ToLower(sargs[0])]; ok {
@@ -313,8 +334,12 @@ func (n *Node) serve(conn *vnet.VConn, id int) {
 		if len(head) > 40 {
 			head = head[:40]
 		}
-		n.C.Log = append(n.C.Log, Cmd{Node: n.ID, Replica: n.MasterOf != nil, Conn: id, Args: sargs, Asking: wasAsking, Reply: strings.TrimRight(head, "\r\n"), Redirect: redirect})
-		if n.Silent {
+		silent := false
+		n.C.Locked(func() {
+			n.C.Log = append(n.C.Log, Cmd{Node: n.ID, Replica: n.MasterOf != nil, Conn: id, Args: sargs, Asking: wasAsking, Reply: strings.TrimRight(head, "\r\n"), Redirect: redirect})
+			silent = n.Silent
+		})
+		if silent {
 			continue
 		}
 		if n.C.HoldCluster && len(sargs) > 0 && strings.EqualFold(sargs[0], "cluster") {
